@@ -114,6 +114,14 @@ var guardSpecs = []guardSpec{
 	{"setTrialStateGuard", "pkg/suggestion/v1beta1/goptuna/service.go", "syncTrials", `s.study.Storage.SetTrialState(`, gsAtoms, gsParams, true},
 	{"errFindGuard", "pkg/suggestion/v1beta1/goptuna/service.go", "syncTrials", `klog.Errorf("Failed to find Goptuna Trial ID`, gsAtoms, gsParams, true},
 	{"syncErrorGuard", "pkg/suggestion/v1beta1/goptuna/service.go", "syncTrials", `stmt=:return err`, gsAtoms, gsParams, true},
+	{"argPathGuard", "pkg/webhook/v1beta1/pod/inject_webhook.go", "getMetricsCollectorArgs", `append(args, "-path", mountPath)`, caAtoms, caParams, true},
+	{"argFilterGuard", "pkg/webhook/v1beta1/pod/inject_webhook.go", "getMetricsCollectorArgs", `append(args, "-f"`, caAtoms, caParams, true},
+	{"argFileFormatGuard", "pkg/webhook/v1beta1/pod/inject_webhook.go", "getMetricsCollectorArgs", `append(args, "-format", string(mc.Source.FileSystemPath.Format))`, caAtoms, caParams, true},
+	{"argStdoutFormatGuard", "pkg/webhook/v1beta1/pod/inject_webhook.go", "getMetricsCollectorArgs", `append(args, "-format", string(common.TextFormat))`, caAtoms, caParams, true},
+	{"argWaitGuard", "pkg/webhook/v1beta1/pod/inject_webhook.go", "getMetricsCollectorArgs", `append(args, "-w"`, caAtoms, caParams, true},
+	{"argStopRuleGuard", "pkg/webhook/v1beta1/pod/inject_webhook.go", "getMetricsCollectorArgs", `append(args, "-stop-rule", rule)`, caAtoms, caParams, true},
+	{"errNoSuggestionGuard", "pkg/webhook/v1beta1/pod/inject_webhook.go", "getMetricsCollectorArgs", `errInvalidSuggestionName`, caAtoms, caParams, true},
+	{"argEarlyStopGuard", "pkg/webhook/v1beta1/pod/inject_webhook.go", "getMetricsCollectorArgs", `append(args, "-s-earlystop"`, caAtoms, caParams, true},
 	{"addFinalizerGuard", "pkg/controller.v1beta1/trial/trial_controller_util.go", "needUpdateFinalizers", "append(pendingFinalizers, cleanMetricsFinalizer)", finAtoms, finParams, false},
 	{"removeFinalizerGuard", "pkg/controller.v1beta1/trial/trial_controller_util.go", "needUpdateFinalizers", "stmt:finalizers := []string{}", finAtoms, finParams, false},
 	{"dbCleanupGuard", "pkg/controller.v1beta1/trial/trial_controller_util.go", "updateFinalizers", "r.DeleteTrialObservationLog(instance)", finAtoms, finParams, false},
@@ -265,6 +273,14 @@ var gsAtoms = map[string]string{
 	"ktrial.State == goptuna.TrialStateComplete": "complete",
 }
 var gsParams = []string{"found", "failed1", "failed2", "failed3", "failed4", "finished", "sameState", "complete"}
+
+var caAtoms = map[string]string{
+	`mountPath != ""`: "hasMountPath", "mc.Source != nil": "sourceSet", "mc.Source.Filter != nil": "filterSet",
+	"len(mc.Source.Filter.MetricsFormat) > 0": "hasFormats", "mc.Collector.Kind == common.FileCollector": "isFile",
+	"mc.Source.FileSystemPath != nil": "fsPathSet", "mc.Collector.Kind == common.StdOutCollector": "isStdOut",
+	"metricsCollectorConfigData.WaitAllProcesses != nil": "waitSet", "len(esRules) > 0": "hasRules", "err != nil": "lookupFailed",
+}
+var caParams = []string{"hasMountPath", "sourceSet", "filterSet", "hasFormats", "isFile", "fsPathSet", "isStdOut", "waitSet", "hasRules", "lookupFailed"}
 
 var finAtoms = map[string]string{
 	"trial.ObjectMeta.DeletionTimestamp.IsZero()": "(!deleting)", "instance.ObjectMeta.DeletionTimestamp.IsZero()": "(!deleting)",
